@@ -49,7 +49,19 @@ type scenario struct {
 	name string
 	run  func(w *World)
 	rbf  bool // CFG.TXPool.NotFullRBF
+	opt  worldOpt
 }
+
+// worldOpt: the other settings of a scenario's world.
+type worldOpt struct {
+	noMem bool // CFG.TXPool.AllowMemInputs = false
+	ring  int  // CFG.TXPool.RejectRecCnt (0 = ringCap)
+}
+
+var (
+	noOpt  = worldOpt{}
+	memOff = worldOpt{noMem: true}
+)
 
 // ------------------------------------------------------------------------------------------ tx builders
 
@@ -514,7 +526,14 @@ func scCoinbaseUndo(w *World) {
 	w.submit(y, "net")
 	w.undoBare()
 	w.r.Hit("gen:undo-below-maturity")
+	// the coinbase has 99 confirmations again: the spend that was pooled a moment ago is refused on every path, and so is its child
+	w.expect("cb-undone-spend-again-net", w.submit(x, "net"), txpool.TX_REJECTED_CB_INMATURE)
+	w.expect("cb-undone-spend-again-local", w.submit(x, "local"), txpool.TX_REJECTED_CB_INMATURE)
+	x2 := w.spend([]*chainkit.Coin{cb}, 2, 5000, nil, false)
+	w.expect("cb-undone-other-spend-trusted", w.submit(x2, "trusted"), txpool.TX_REJECTED_CB_INMATURE)
+	w.submit(y, "net")
 	w.mine(nil) // mature again
+	w.expect("cb-mature-again-local", w.submit(x, "local"), 0)
 	w.mine(w.pooled())
 }
 
@@ -743,6 +762,10 @@ func scRandomSteps(w *World, steps int, withBig bool, final bool) {
 			pool := w.pooled()
 			if len(pool) > 0 && w.g.Chance(1, 14) { // time passes: the records stay, older, until the hourly expiry comes by
 				w.ageRandom()
+			}
+			w.extra(held) // (own stream: boundaries.go)
+			if w.failed || w.dead {
+				break
 			}
 			x := w.g.Intn(100)
 			switch {
@@ -977,52 +1000,64 @@ func (w *World) listingOrder() []*txInfo {
 
 func scenarios(r *vlib.Run) []scenario {
 	l := []scenario{
-		{"corpus:chains-diamonds", scChainsDiamonds, false},
-		{"corpus:dup-input", scDupInput, false},
-		{"corpus:rbf", scRBF, false},
-		{"corpus:rbf-own-descendant", scRBFOwnDescendant, false},
-		{"corpus:rbf-final", scChainsDiamonds, true},
-		{"corpus:orphans", scOrphans, false},
-		{"corpus:orphan-bad-vout", scOrphanBadVout, false},
-		{"corpus:blocks-reorg", scBlocksReorg, false},
-		{"corpus:expire-evict", scExpireEvict, false},
-		{"corpus:evict-local", scEvictLocal, false},
-		{"corpus:joined-families", scJoinedFamilies, false},
-		{"corpus:rejects", scRejects, false},
-		{"corpus:reject-nodata-mined", scRejectMined, false},
-		{"corpus:reject-mined-notfullrbf", scRejectMined, true},
-		{"corpus:coinbase-undo", scCoinbaseUndo, false},
-		{"corpus:witness-twins", scWitnessTwins, false},
-		{"corpus:dirty-list", scDirtyList, false},
-		{"corpus:reorg-stepwise", scReorgStepwise, false},
-		{"corpus:crash-load", scCrashLoad, false},
-		{"corpus:undo-sorting-on", scUndoFamilies, false},
-		{"corpus:undo-sorting-on-notfullrbf", scUndoFamilies, true},
-		{"corpus:aged-reload", scAgedReload, false},
+		{"corpus:chains-diamonds", scChainsDiamonds, false, noOpt},
+		{"corpus:dup-input", scDupInput, false, noOpt},
+		{"corpus:rbf", scRBF, false, noOpt},
+		{"corpus:rbf-own-descendant", scRBFOwnDescendant, false, noOpt},
+		{"corpus:rbf-final", scChainsDiamonds, true, noOpt},
+		{"corpus:orphans", scOrphans, false, noOpt},
+		{"corpus:orphan-bad-vout", scOrphanBadVout, false, noOpt},
+		{"corpus:blocks-reorg", scBlocksReorg, false, noOpt},
+		{"corpus:expire-evict", scExpireEvict, false, noOpt},
+		{"corpus:evict-local", scEvictLocal, false, noOpt},
+		{"corpus:joined-families", scJoinedFamilies, false, noOpt},
+		{"corpus:rejects", scRejects, false, noOpt},
+		{"corpus:reject-nodata-mined", scRejectMined, false, noOpt},
+		{"corpus:reject-mined-notfullrbf", scRejectMined, true, noOpt},
+		{"corpus:coinbase-undo", scCoinbaseUndo, false, noOpt},
+		{"corpus:witness-twins", scWitnessTwins, false, noOpt},
+		{"corpus:dirty-list", scDirtyList, false, noOpt},
+		{"corpus:reorg-stepwise", scReorgStepwise, false, noOpt},
+		{"corpus:crash-load", scCrashLoad, false, noOpt},
+		{"corpus:undo-sorting-on", scUndoFamilies, false, noOpt},
+		{"corpus:undo-sorting-on-notfullrbf", scUndoFamilies, true, noOpt},
+		{"corpus:aged-reload", scAgedReload, false, noOpt},
 	}
 	l = append(l,
 		// 43 arrivals directly below the head of a freshly built list: the rank gap there goes 2^42.4 … 3, 2, 1
-		scenario{"corpus:squeeze-head-43", scSqueeze(squeezeParams{n: 43, pos: 0, noFar: true, kidsFor: 4}, 6), false},
+		scenario{"corpus:squeeze-head-43", scSqueeze(squeezeParams{n: 43, pos: 0, noFar: true, kidsFor: 4}, 6), false, noOpt},
 		// adaptive: as many arrivals as it takes until one has met a gap <= 1, then the children
-		scenario{"corpus:squeeze-middle", scSqueeze(squeezeParams{n: 0, pos: 1, kidsFor: 4}, 9), false},
-		scenario{"corpus:squeeze-tail", scSqueeze(squeezeParams{n: 0, pos: 2, noFar: true, kidsFor: 3}, 6), false},
-		scenario{"corpus:squeeze-up", scSqueeze(squeezeParams{n: 0, up: true, pos: 1, kidsFor: 4}, 6), false},
-		scenario{"corpus:squeeze-mem-interleaved", scSqueeze(squeezeParams{n: 46, pos: 0, memSplit: true, interleave: 39, kidsFor: 2}, 4), true},
+		scenario{"corpus:squeeze-middle", scSqueeze(squeezeParams{n: 0, pos: 1, kidsFor: 4}, 9), false, noOpt},
+		scenario{"corpus:squeeze-tail", scSqueeze(squeezeParams{n: 0, pos: 2, noFar: true, kidsFor: 3}, 6), false, noOpt},
+		scenario{"corpus:squeeze-up", scSqueeze(squeezeParams{n: 0, up: true, pos: 1, kidsFor: 4}, 6), false, noOpt},
+		scenario{"corpus:squeeze-mem-interleaved", scSqueeze(squeezeParams{n: 46, pos: 0, memSplit: true, interleave: 39, kidsFor: 2}, 4), true, noOpt},
 	)
 	nr := r.N(10, 60)
 	for i := 0; i < nr; i++ {
-		l = append(l, scenario{fmt.Sprintf("random:%d", i), scRandom(r.N(60, 100), i%5 == 4), i%4 == 3})
+		l = append(l, scenario{fmt.Sprintf("random:%d", i), scRandom(r.N(60, 100), i%5 == 4), i%4 == 3, worldOpt{noMem: i%6 == 5}}) // (1 world in 6: AllowMemInputs off)
 	}
 	ns := r.N(3, 24)
 	for i := 0; i < ns; i++ {
-		l = append(l, scenario{fmt.Sprintf("random-squeeze:%d", i), scRandomSqueeze(r.N(30, 60)), i%4 == 3})
+		l = append(l, scenario{fmt.Sprintf("random-squeeze:%d", i), scRandomSqueeze(r.N(30, 60)), i%4 == 3, noOpt})
 	}
+	// boundaries.go. Listed last (one PRNG stream per list index: the streams of the scenarios above stay what they
+	// were), run with the rest of the corpus (main).
+	l = append(l,
+		scenario{"corpus:coinbase-boundary", scCoinbaseBoundary, false, noOpt},
+		scenario{"corpus:vout-boundary", scVoutBoundary, false, noOpt},
+		scenario{"corpus:not-mined", scNotMined, false, memOff},
+		scenario{"corpus:loadraw-pooled", scLoadRawPooled, false, noOpt},
+		scenario{"corpus:deep-orphan-20", scDeepOrphan20, false, noOpt},
+		scenario{"corpus:deep-orphan-20-ring128", scDeepOrphan20, false, worldOpt{ring: 128}},
+		scenario{"corpus:deep-orphan-k", scDeepOrphanK, false, worldOpt{ring: 128}},
+		scenario{"corpus:deep-orphan-k-nomem", scDeepOrphanK, false, memOff},
+	)
 	return l
 }
 
 func runScenario(r *vlib.Run, sc scenario, g *vlib.Rng) *World {
 	defer prof("scenario " + sc.name)()
-	w := newWorld(r, g, sc.name, sc.rbf)
+	w := newWorld(r, g, sc.name, sc.rbf, sc.opt)
 	defer w.close()
 	func() {
 		defer func() {
@@ -1092,15 +1127,28 @@ func main() {
 		base = vlib.NewRng(doc.Seed)
 		only = doc.Replay.Scenario
 	}
+	type job struct {
+		sc scenario
+		g  *vlib.Rng
+	}
+	var corpus, generated []job
 	for _, sc := range scenarios(r) {
-		g := base.Fork() // one stream per scenario index, so that a replay re-derives the same one
+		j := job{sc, base.Fork()} // one stream per scenario index, so that a replay re-derives the same one
+		if strings.HasPrefix(sc.name, "corpus:") {
+			corpus = append(corpus, j)
+		} else {
+			generated = append(generated, j)
+		}
+	}
+	for _, j := range append(corpus, generated...) { // corpus first
+		sc := j.sc
 		if only != "" && sc.name != only {
 			continue
 		}
 		if pf := os.Getenv("VERIF_C12_ONLY"); pf != "" && !strings.HasPrefix(sc.name, pf) {
 			continue // development aid: run the scenarios with this name prefix only (same PRNG streams)
 		}
-		w := runScenario(r, sc, g)
+		w := runScenario(r, sc, j.g)
 		if w.dead && !w.envAbort {
 			break // a goroutine is stuck inside gocoin holding TxMutex
 		}
